@@ -16,9 +16,9 @@ XH_NOTE = ("Trusted base: CrossHair 0.0.110's models of Python ints/lists/dicts 
 
 CHECKS += [
     {
-        "property_id": "C03", "engine": "symx", "category": "model_checking",
-        "technique": "bounded symbolic execution of Simulator.simulate on a fully symbolic unitary block + z3 (polynomial identities against a permutation-sum permanent)",
-        "text": "For every complex value of the entries of the circuit's unitary block and every loss value, every amplitude returned by the real Simulator (array, pair index) equals perm(U_full[rows,cols])/sqrt(prod n!) with herald photons inserted on herald modes (in != out allowed) and vacuum on loss modes, for all inputs/outputs within the photon bound; lossless bs/ps layouts give unit vectors for all parameter values.",
+        "property_id": "C03", "engine": "symx+crosshair", "category": "model_checking",
+        "technique": "bounded symbolic execution of Simulator.simulate on a fully symbolic unitary block + z3 (polynomial identities against a permutation-sum permanent); CrossHair (z3) for the rejection of malformed input/output states",
+        "text": "For every complex value of the entries of the circuit's unitary block and every loss value, every amplitude returned by the real Simulator (array, pair index) equals perm(U_full[rows,cols])/sqrt(prod n!) with herald photons inserted on herald modes (in != out allowed) and vacuum on loss modes, for all inputs/outputs within the photon bound; lossless bs/ps layouts give unit vectors for all parameter values; 4 CrossHair conditions: malformed states (negative/non-integer occupations, wrong length, mixed photon numbers) are rejected.",
         "design_ref": "DESIGN.md section 4 C03", "note": SYMX_NOTE + " thewalrus.perm is stubbed by a definitional permanent.",
     },
     {
